@@ -229,7 +229,7 @@ def mk_mrep(rep, model, idx):
             # a bound method with a further, defaulted parameter (`def population(self, kind=None)`): it is called without
             # arguments; handing it the model as `kind` changes what it reports
             def meth(self, kind=None):
-                return F_eval(f, self) if kind is None else ("called-with-argument",)
+                return F_eval(f, self) if kind is None else -777777
 
             return types.MethodType(meth, model)
         return types.MethodType(lambda self: F_eval(f, self), model)
